@@ -5,17 +5,28 @@ import numpy as real_np
 
 from symx import patch
 from symx.core import And, Or, Not, Implies, Sum, select, eq, ite, is_nan
-from .common import Scenario, elems, shape, mk_array, run_property
+from symx import h5shim
+from .common import Scenario, elems, shape, mk_array, run_property, assume_not_ndv
 
 
 class Merge(Scenario):
     """{Points,Curve,Surface}Merger.merge_objects on inputs with symbolic vertices, in-range cells and data on a subset"""
     pid = "C16"
+    include_io = True
+
+    def run(self, cx):
+        if self.backend == "real" or not self.params.get("stored"):
+            return super().run(cx)
+        with h5shim.h5_on():
+            return super().run(cx)
 
     def body(self, cx):
         from geoh5py.workspace import Workspace
         from geoh5py.objects import Curve, Surface, Points
         from geoh5py.shared.merging import CurveMerger, SurfaceMerger, PointsMerger
+        stored = bool(self.params.get("stored"))
+        if stored:
+            h5shim.reset()
         kind = self.params["kind"]
         shapes = self.params["shapes"]            # [(n_i, m_i)]
         has_v = self.params.get("vdata", [False] * len(shapes))
@@ -36,7 +47,8 @@ class Merge(Scenario):
             ins.append(o)
             vds.append(vd)
             cds.append(cd)
-        patch.detach(ws, *[x for x in ins + vds + cds if x is not None])
+        if not stored:
+            patch.detach(ws, *[x for x in ins + vds + cds if x is not None])
         with self.engine(cx) as X:
             sym = []
             for e, (o, (n, m)) in enumerate(zip(ins, shapes)):
@@ -48,9 +60,13 @@ class Merge(Scenario):
                 D = CD = None
                 if vds[e] is not None:
                     D = [cx.real(f"d{e}_{i}") for i in range(n)]
+                    if stored:
+                        assume_not_ndv(cx, D)
                     vds[e].values = mk_array(X, D, (n,), "float64")
                 if cds[e] is not None:
                     CD = [cx.real(f"e{e}_{i}") for i in range(m)]
+                    if stored:
+                        assume_not_ndv(cx, CD)
                     cds[e].values = mk_array(X, CD, (m,), "float64")
                 sym.append((V, C, D, CD))
             if w:
@@ -125,6 +141,31 @@ class Merge(Scenario):
                     cx.prove(And([eq(x, y) for x, y in zip(elems(vds[e].values), D)]), f"input {e} data unchanged",
                              "inputs unchanged")
             cx.observe("vertices", ve)
+            if stored:
+                # the merged object as a fresh reader sees it
+                live = {"vertices": elems(out.vertices)}
+                if w:
+                    live["cells"] = elems(out.cells)
+                for c in out.children:
+                    if hasattr(c, "values") and getattr(c, "name", None) in ("d", cname):
+                        live["data:" + c.name + ":" + c.association.name] = elems(c.values)
+                uid = out.uid
+                ws.close()
+                ws2 = Workspace(ws.h5file)
+                o2 = ws2.get_entity(uid)[0]
+                cx.prove(o2 is not None, "merged object found in the file", "re-open")
+                if o2 is not None:
+                    back = {"vertices": elems(o2.vertices)}
+                    if w:
+                        back["cells"] = elems(o2.cells)
+                    for c in o2.children:
+                        if hasattr(c, "values") and getattr(c, "name", None) in ("d", cname):
+                            back["data:" + c.name + ":" + c.association.name] = elems(c.values)
+                    for key, vals in live.items():
+                        b = back.get(key)
+                        ok = b is not None and len(b) == len(vals) and And([eq(x, y) or (is_nan(x) and is_nan(y)) for x, y in zip(b, vals)])
+                        cx.prove(ok, f"re-opened {key} == merged {key}", "re-open")
+                ws2.close()
             return "ok"
 
 
@@ -220,7 +261,9 @@ def scenarios(tier, seed):
               Merge(kind="points", shapes=[(2, 0), (1, 0), (2, 0)], vdata=[True, False, True]),
               Merge(kind="curve", shapes=[(3, 2), (3, 2)], vdata=[True, True], cdata=[True, True]),
               Merge(kind="surface", shapes=[(4, 2), (4, 2)], vdata=[False, True], cdata=[True, False], cell_data_name="d"),
-              DrapeMerge(shapes=[[2, 1], [1, 2], [1, 1]], data=[True, False, True])]
+              DrapeMerge(shapes=[[2, 1], [1, 2], [1, 1]], data=[True, False, True]),
+              Merge(kind="curve", shapes=[(3, 2), (2, 1)], vdata=[True, False], cdata=[True, True], stored=True),
+              Merge(kind="points", shapes=[(2, 0), (2, 0)], vdata=[True, True], stored=True)]
     else:
         for kind in ("curve", "surface"):
             for shapes in ([(3, 1), (2, 1)], [(4, 2), (3, 2)], [(2, 2), (3, 3), (4, 1)], [(4, 3), (4, 3)],
